@@ -8,8 +8,10 @@ files they serve.  After every request the trace, the status and the Allow heade
 with what the model designates.
 """
 
+import enum
 import itertools
 import json
+import pathlib
 import os
 import re
 import shutil
@@ -120,7 +122,61 @@ def make_resource(trace, idx, spec, asgi):
         ns[attr] = 'not a responder'
     if spec.get('falsy'):
         ns['__bool__'] = lambda self: False
+    if spec.get('eq') is not None:
+        # value-object style resource: distinct instances of one group compare equal and hash alike
+        group = ('eq-group', spec['eq'])
+        ns['_eq_group'] = group
+        ns['__eq__'] = lambda self, other: getattr(other, '_eq_group', None) == group
+        ns['__hash__'] = lambda self: hash(group)
     return type('Res%d' % idx, (), ns)()
+
+
+def _make_unbound_responder(trace, idx, attr, asgi):
+    """A responder stored on the INSTANCE (no self)."""
+    if asgi:
+        async def responder(req, resp, **kwargs):
+            trace.append(('res', idx, attr, kwargs))
+            resp.text = 'responder'
+    else:
+        def responder(req, resp, **kwargs):
+            trace.append(('res', idx, attr, kwargs))
+            resp.text = 'responder'
+    return responder
+
+
+def mutate_resource(trace, idx, resource, add, remove, asgi, on_instance):
+    for attr in remove:
+        if attr in vars(resource):
+            delattr(resource, attr)
+        else:
+            delattr(type(resource), attr)
+    for attr in add:
+        if on_instance:
+            setattr(resource, attr, _make_unbound_responder(trace, idx, attr, asgi))
+        else:
+            setattr(type(resource), attr, _make_responder(trace, idx, attr, asgi))
+
+
+class LoudStr(str):
+    """A str subclass whose str()/format()/repr() are NOT its value."""
+
+    def __str__(self):
+        return 'LoudStr.__str__'
+
+    def __format__(self, spec):
+        return 'LoudStr.__format__'
+
+    def __repr__(self):
+        return 'LoudStr.__repr__'
+
+
+def wrap_str(value, kind):
+    """kind None: plain str; 'enum': member of a (str, Enum) class; 'loud': LoudStr."""
+    if value is None or not kind:
+        return value
+    if kind == 'enum':
+        return enum.Enum('Mount', {'MEMBER': value}, type=str).MEMBER
+    return LoudStr(value)
 
 
 def make_middleware(mw, asgi):
@@ -184,32 +240,54 @@ class Built:
         self.resources = [make_resource(self.trace, i, spec, self.asgi) for i, spec in enumerate(cfg['resources'])]
         self.model = M.Model(cfg['sink_first'], [set(s['callable']) for s in cfg['resources']], DIRS)
         self.nops = 0
+        self.mutated = set()                # resources changed so far
+        self.route_after_mutation = {}      # template -> its resource had changed before the route was added
+
+    def op_wrap(self, kind, key):
+        """How the str arguments of the op that created this route/sink/static route were passed."""
+        wrap = self.cfg.get('wrap') or {}
+        for i, op in enumerate(self.cfg['ops'][:self.nops]):
+            if op[0] == kind and op[1] == key and not (kind == 'sink' and op[4]):
+                return wrap.get(str(i))
+        return None
 
     def apply_next(self):
         op = self.cfg['ops'][self.nops]
         self.nops += 1
         kind = op[0]
+        wk = (self.cfg.get('wrap') or {}).get(str(self.nops - 1))
         if kind == 'route':
             _, template, res_idx, suffix = op
-            kw = {'suffix': suffix} if suffix else {}
+            kw = {'suffix': wrap_str(suffix, wk)} if suffix else {}
             if self.cfg.get('compile_now') and self.nops % 2:
                 kw['compile'] = True
-            self.app.add_route(template, self.resources[res_idx], **kw)
+            self.app.add_route(wrap_str(template, wk), self.resources[res_idx], **kw)
             self.model.add_route(template, res_idx, suffix)
+            self.route_after_mutation[template] = res_idx in self.mutated
+        elif kind == 'mutate':
+            _, res_idx, add, remove, on_instance = op
+            mutate_resource(self.trace, res_idx, self.resources[res_idx], add, remove, self.asgi, on_instance)
+            self.model.mutate_resource(res_idx, add, remove)
+            self.mutated.add(res_idx)
         elif kind == 'sink':
             _, idx, pattern, flags, precompiled = op
             sink = _make_sink(self.trace, idx, self.asgi)
             if precompiled:
                 self.app.add_sink(sink, re.compile(pattern, flags))
-            elif pattern == '/' and idx % 2:
+            elif pattern == '/' and idx % 2 and not wk:
                 self.app.add_sink(sink)            # documented default prefix
             else:
-                self.app.add_sink(sink, pattern)
+                self.app.add_sink(sink, wrap_str(pattern, wk))
             self.model.add_sink(idx, pattern, flags)
         else:
             _, idx, prefix, d, fallback, downloadable = op
-            self.app.add_static_route(prefix, os.path.join(self.root, 'd%d' % d), downloadable=downloadable,
-                                      fallback_filename=fallback)
+            directory = os.path.join(self.root, 'd%d' % d)
+            if wk == 'loud':
+                directory = pathlib.Path(directory)         # documented: Union[str, pathlib.Path]
+            elif wk == 'enum':
+                directory = wrap_str(directory, wk)
+            self.app.add_static_route(wrap_str(prefix, wk), directory, downloadable=downloadable,
+                                      fallback_filename=wrap_str(fallback, wk))
             self.model.add_static(idx, prefix, d, fallback)
         return op
 
@@ -374,6 +452,18 @@ def check_request(rec, b, method, path, checkpoints=(), final=True):
             rec.count('cls.static-404-does-not-fall-through')
     if len(exp['alts']) > 1:
         rec.count('cls.several-routes-match')
+    if cls in ('responder', 'auto-options', '405'):
+        wk = b.op_wrap('route', alt['template'])
+        if wk:
+            rec.count('cls.strsub-%s.route.%s' % (wk, cls))
+        if b.route_after_mutation.get(alt['template']):
+            rec.count('cls.route-added-after-resource-changed.' + cls)
+        if cls == 'responder' and b.cfg['resources'][alt['res']].get('eq') is not None:
+            rec.count('cls.equal-but-distinct-resource.responder')
+    elif cls in ('sink', 'static'):
+        wk = b.op_wrap(cls, alt['idx'])
+        if wk:
+            rec.count('cls.strsub-%s.%s' % (wk, cls))
     mw = b.cfg.get('mw')
     if mw:
         if mw.get('status'):
@@ -531,6 +621,51 @@ BRANCH_REQUESTS = [('GET', '/r1/12'), ('POST', '/r1/042'), ('REPORT', '/r1/7/sub
                    ('GET', '/r1'), ('OPTIONS', '/r1'), ('GET', '/zz'), ('GET', '/s2'), ('PUT', '/s2'), ('GET', '/s2/w'),
                    ('GET', '/s2/w/z'), ('GET', '/S0/12'), ('GET', '/empty'), ('OPTIONS', '/empty'), ('PUT', '/empty'),
                    ('GET', '/r2/common.txt/zz'), ('GET', '/r2/sub/common.txt')]
+
+
+def family_arg_types():
+    """str arguments passed as str SUBCLASSES whose str()/format() differ from their value ((str, Enum) member,
+    LoudStr), directories as pathlib.Path: every op alone and all together x option x stack."""
+    ops = [['sink', 0, '/', 0, False],
+           ['static', 0, '/st0', 0, 'index.html', False],
+           ['static', 1, '/st1/', 1, None, False],
+           ['sink', 1, r'/s0/(?P<id>\d+)', 0, False],
+           ['route', '/r0/{id}', 0, 'Item'],
+           ['route', '/st0/nope', 0, None]]
+    for stack in ('wsgi', 'asgi'):
+        for sink_first in (True, False):
+            for kind in ('enum', 'loud'):
+                for which in [list(range(len(ops)))] + [[i] for i in range(len(ops))]:
+                    yield {'stack': stack, 'sink_first': sink_first,
+                           'resources': [{'callable': ['on_get', 'on_get_Item', 'on_put_Item', 'on_post_item']}],
+                           'ops': ops, 'wrap': {str(i): kind for i in which}}
+
+
+ARG_TYPE_REQUESTS = [('GET', '/st0/common.txt'), ('HEAD', '/st0/only0.txt'), ('GET', '/st0'), ('GET', '/st0/zz.txt'),
+                     ('GET', '/st1/common.txt'), ('GET', '/st1'), ('GET', '/s0/12'), ('GET', '/r0/7'), ('PUT', '/r0/7'),
+                     ('POST', '/r0/7'), ('OPTIONS', '/r0/7'), ('GET', '/st0/nope'), ('PUT', '/st0/nope'), ('GET', '/zz')]
+
+
+def family_equal_and_changing_resources():
+    """Distinct resource instances that compare equal and hash alike, on several routes with and without suffix;
+    a resource that gains/loses responders (on the class or on the instance) between two add_route calls."""
+    for stack in ('wsgi', 'asgi'):
+        for sink_first in (True, False):
+            for on_instance in (False, True):
+                yield {'stack': stack, 'sink_first': sink_first,
+                       'resources': [{'callable': ['on_get', 'on_get_item', 'on_post'], 'eq': 0},
+                                     {'callable': ['on_delete_item', 'on_get', 'on_get_item', 'on_put'], 'eq': 0},
+                                     {'callable': ['on_get'], 'eq': 0, 'falsy': True}],
+                       'ops': [['route', '/a', 0, None], ['route', '/b', 1, None], ['route', '/c', 1, 'item'],
+                               ['route', '/d', 0, 'item'], ['route', '/f', 2, None], ['sink', 0, '/', 0, False],
+                               ['mutate', 0, ['on_delete', 'on_patch_item'], ['on_post'], on_instance],
+                               ['route', '/e', 0, None], ['route', '/g', 0, 'item'],
+                               ['mutate', 1, ['on_report'], ['on_put'], on_instance],
+                               ['route', '/h', 1, None], ['route', '/i/{x}', 2, None]]}
+
+
+EQUAL_REQUESTS = [(m, p) for p in ('/a', '/b', '/c', '/d', '/e', '/f', '/g', '/h', '/i/1')
+                  for m in ('GET', 'PUT', 'POST', 'DELETE', 'PATCH', 'REPORT', 'OPTIONS')]
 
 
 def run_config_fixed(rec, root, cfg, requests, every_step):
@@ -743,6 +878,14 @@ def run(rec):
             for _ in range(2):
                 run_config_fixed(rec, root, cfg, BRANCH_REQUESTS, every_step=True)   # every shard: tiny
             rec.count('exh.branch-class-configs')
+        for fam, reqs, counter in ((family_arg_types, ARG_TYPE_REQUESTS, 'exh.arg-type-configs'),
+                                   (family_equal_and_changing_resources, EQUAL_REQUESTS, 'exh.equal-resource-configs')):
+            for cfg in fam():
+                idx += 1
+                if idx % rec.nshards != rec.shard:
+                    continue
+                run_config_fixed(rec, root, cfg, reqs, every_step=True)
+                rec.count(counter)
         for cfg in family_method_subsets():
             idx += 1
             if idx % rec.nshards != rec.shard:
@@ -805,6 +948,14 @@ def run(rec):
             rec.floor('cls.preset-allow.%s.%s' % (hook, cls), 40)
     for cls in ('sink', 'static', '404'):
         rec.floor('cls.preset-status.request.%s' % cls, 40)
+    rec.floor('exh.arg-type-configs', 112)
+    rec.floor('exh.equal-resource-configs', 8)
+    for kind in ('enum', 'loud'):
+        for c in ('route.responder', 'route.405', 'route.auto-options', 'sink', 'static'):
+            rec.floor('cls.strsub-%s.%s' % (kind, c), 40)
+    for c in ('responder', '405', 'auto-options'):
+        rec.floor('cls.route-added-after-resource-changed.' + c, 40)
+    rec.floor('cls.equal-but-distinct-resource.responder', 40)
     rec.floor('proc.custom-verbs', 1)
     rec.floor('proc.default-verbs', 1)
     rec.floor('exh.custom-verb-configs', 124)
